@@ -60,7 +60,22 @@ RULE = ("random Bayesian networks (random DAGs of every density, chains, forks, 
         "evidence of the wrong cardinality / on an unknown variable, an elimination order containing a query variable, an "
         "unknown evidence state) followed by a judged map_query on the same engine; [L] shuffled node/edge/CPD/factor "
         "insertion, parent, query-variable and evidence orders, explicit random elimination orders, 4/16 hash seeds; "
-        "[M] tools/check.py shuffles the cases and enforces the budget floor")
+        "[M] tools/check.py shuffles the cases and enforces the budget floor; "
+        "[N] every pgmpy model is built from run-time REBUILT copies of the names and states (strings joined from characters, "
+        "tuples rebuilt, integers above 256 incl. 'bigint' variable names 1000.. and state names 300.., 70000..), so every "
+        "query argument is equal to but not identical with the object stored in the model; "
+        "[O] query variables as list / tuple / set / frozenset / dict-keys view for the elimination engine and list / tuple / "
+        "set for BeliefPropagation (its _query documents a list and recognises exactly these three), explicit elimination "
+        "orders as list / tuple / numpy object array / pandas Index (array-likes only for all-str or all-int names; one-shot "
+        "iterators are not a documented form: the code tests membership before iterating); evidence is documented as a dict; "
+        "[P] chains, random trees, caterpillars and binary trees of 9..14 binary nodes (8..13 cliques; sizes 9 = 1 mod 8) "
+        "with one skewed prior at the far end, MAP of far nodes through fresh BP engines, BP after a public calibrate(), and VE; "
+        "variables with > 256 states do not fit the exact brute-force oracle (cardinalities 1..4 here; argmax/assignment are "
+        "proved for every shape); [Q] CPDs typed in thousandths whose columns sum to 0.995 / 1.005 (all columns of one CPD "
+        "alike, so pruning rescales by a constant), judged against the product of the tables as given; "
+        "[R] virtual evidence x no-variables x every engine, virtual evidence x evidence on roots, virtual evidence x "
+        "explicit order containers, torch x virtual evidence, sessions mixing max_calibrate / rejected calls / virtual "
+        "evidence, predict x categorical x BP")
 TRUSTED_BASE = ["numpy argmax/einsum kernels and float arithmetic (inputs are dyadic, so the engine's tables are exact)",
                 "network pruning (_prune_bayesian_model) and the junction-tree calibration behind BeliefPropagation are "
                 "covered here only through the checker on their final answers (their own theorems: C01, C02)",
@@ -93,6 +108,8 @@ def name_specs(rng, n, style):
         return [["i", x] for x in pool[:n]]
     if style == "tuple":
         return [["t", ["v", i]] for i in rng.sample(range(n + 3), n)]
+    if style == "bigint":
+        return [["i", 1000 + 37 * i] for i in rng.sample(range(n + 4), n)]
     if style == "substr":
         # one name a substring of another, the virtual-evidence prefix "__", keyword-like names, digit strings
         pool = ["x1", "x10", "x", "x11", "G", "G2", "__x1", "__G", "x1_", "phi_x", "1", "0", "variables", "evidence"]
@@ -122,7 +139,7 @@ def state_specs(rng, card, style):
         rng.shuffle(p)
         return [["i", i] for i in p]
     if style == "intoff":
-        off = rng.choice([1, 5, -2])
+        off = rng.choice([1, 5, -2, 300, 70000])
         p = [i + off for i in range(card)]
         rng.shuffle(p)
         return [["i", i] for i in p]
@@ -222,7 +239,7 @@ def gen_bn(rng, nmax, space_max):
         cols = [column(rng, cards[v]) for _ in range(ncol)]
         rows = [[jf(cols[j][i]) for j in range(ncol)] for i in range(cards[v])]
         cpds.append({"v": v, "pa": parents[v], "rows": rows})
-    vstyle = rng.choice(["str", "substr", "int", "tuple", "mixed"])
+    vstyle = rng.choice(["str", "substr", "int", "bigint", "tuple", "mixed"])
     return {"kind": "bn", "n": n, "nodes": nodes, "edges": [list(e) for e in edges], "cards": cards, "cpds": cpds,
             "shape": shape, "vstyle": vstyle, "vnames": name_specs(rng, n, vstyle),
             "states": [state_specs(rng, cards[v], rng.choice(STATE_STYLES)) for v in range(n)],
@@ -313,7 +330,7 @@ def gen_mn(rng, nmax):
     if facs and rng.random() < 0.25:
         f = rng.choice(facs)
         facs.append({"vars": list(f["vars"]), "vals": list(f["vals"])})
-    vstyle = rng.choice(["str", "substr", "int", "tuple", "mixed"])
+    vstyle = rng.choice(["str", "substr", "int", "bigint", "tuple", "mixed"])
     return {"kind": "mn", "n": n, "edges": [list(e) for e in und], "cards": cards, "factors": facs, "vstyle": vstyle,
             "vnames": name_specs(rng, n, vstyle),
             "states": [state_specs(rng, cards[v], rng.choice(STATE_STYLES)) for v in range(n)],
@@ -364,9 +381,13 @@ def cases(tier, seed):
         out.append(gen_session(rng, nmax, space, "bp" if i % 3 else "ve"))
     for _ in range(8 if tier == "quick" else 80):
         out.append(gen_wide(rng))
+    for i in range(20 if tier == "quick" else 200):
+        out.append(gen_mid(rng, n=9 if i % 4 == 0 else None, shape="chain" if i % 4 == 0 else None))
     for _ in range(30 if tier == "quick" else 300):
         out.append(make_extreme_bn(rng, gen_bn(rng, 5, 200)))
         out.append(make_extreme_mn(rng, gen_mn(rng, 4)))
+    for _ in range(24 if tier == "quick" else 240):
+        out.append(make_decimal_bn(rng, gen_bn(rng, 5, 200)))
     # the torch backend for a share of the single-query, primitive and session cases
     for c in out:
         if c["kind"] in ("bn", "mn", "prim", "session") and rng.random() < 0.12:
@@ -461,6 +482,37 @@ def make_extreme_bn(rng, c):
     return c
 
 
+def make_decimal_bn(rng, c):
+    """CPDs typed with two or three decimals whose columns do NOT sum to exactly 1 (0.995 / 1.005, inside check_model's
+    0.01 tolerance).  All columns of one CPD share the same sum, so pruning a barren or d-separated node only rescales the
+    joint by a constant and the MAP of the product of the tables as given is well defined."""
+    c = dict(c)
+    cpds = []
+    for d in c["cpds"]:
+        card = len(d["rows"])
+        ncol = len(d["rows"][0])
+        if card == 1 or rng.random() < 0.3:
+            cpds.append(d)
+            continue
+        tot = rng.choice([995, 1005, 1000, 990 + 5])      # thousandths
+        rows = [[None] * ncol for _ in range(card)]
+        for j in range(ncol):
+            while True:
+                parts = [rng.choice([0, 10, 125, 250, 330, 335, 400, 495, 500, 660, 900]) for _ in range(card - 1)]
+                last = tot - sum(parts)
+                if last >= 0:
+                    break
+            col = parts + [last]
+            rng.shuffle(col)
+            for i in range(card):
+                rows[i][j] = jf(Fraction(float(Fraction(col[i], 1000))))      # the float pgmpy will hold, exactly
+        cpds.append({"v": d["v"], "pa": d["pa"], "rows": rows})
+    c["cpds"] = cpds
+    c["inexact"] = True
+    c["shape"] = "decimals"
+    return c
+
+
 def make_extreme_mn(rng, c):
     """scale the factors by powers of two between 2^-280 and 2^280 (products stay inside the float range)"""
     c = dict(c)
@@ -486,6 +538,71 @@ def gen_f32(rng):
     return {"kind": "mn", "n": 1, "edges": [], "cards": [card], "factors": facs, "vstyle": "str",
             "vnames": name_specs(rng, 1, "str"), "states": [state_specs(rng, card, rng.choice(["str", "intperm"]))],
             "qseed": rng.randint(0, 10 ** 9), "inexact": True, "torch": True, "f32": True}
+
+
+def gen_mid(rng, n=None, shape=None):
+    """9..14 binary nodes: chain, random tree, caterpillar, or binary tree; sticky transitions, one skewed prior at a
+    far end: the junction tree has >= 8 cliques and the MAP of a node at the other end depends on the far prior"""
+    n = n or rng.choice([9, 9, 10, 11, 12, 13, 14])
+    shape = shape or rng.choice(["chain", "chain", "tree", "caterpillar", "bintree"])
+    parent = [None] * n
+    if shape == "chain":
+        for i in range(1, n):
+            parent[i] = i - 1
+    elif shape == "tree":
+        for i in range(1, n):
+            parent[i] = rng.randrange(max(0, i - 3), i)
+    elif shape == "bintree":
+        for i in range(1, n):
+            parent[i] = (i - 1) // 2
+    else:                                       # caterpillar: a spine with one leg per spine node
+        spine = (n + 1) // 2
+        for i in range(1, spine):
+            parent[i] = i - 1
+        for i in range(spine, n):
+            parent[i] = i - spine
+    sticky = [[Fraction(15, 16), Fraction(1, 16)], [Fraction(7, 8), Fraction(1, 8)], [Fraction(3, 4), Fraction(1, 4)]]
+    cpds = []
+    for v in range(n):
+        if parent[v] is None:
+            pr = rng.choice([[Fraction(1, 8), Fraction(7, 8)], [Fraction(1, 16), Fraction(15, 16)], [Fraction(3, 16), Fraction(13, 16)]])
+            pr = list(pr)
+            rng.shuffle(pr)
+            cpds.append({"v": v, "pa": [], "rows": [[jf(pr[0])], [jf(pr[1])]]})
+        else:
+            a, b_ = rng.choice(sticky)
+            flip = rng.random() < 0.25          # some links invert the state
+            cols = [[a, b_], [b_, a]] if not flip else [[b_, a], [a, b_]]
+            cpds.append({"v": v, "pa": [parent[v]], "rows": [[jf(cols[j][i]) for j in range(2)] for i in range(2)]})
+    perm = list(range(n))
+    if rng.random() < 0.7:
+        rng.shuffle(perm)
+    edges = [[perm[parent[v]], perm[v]] for v in range(1, n)]
+    if rng.random() < 0.5:
+        rng.shuffle(edges)
+    cpds2 = [{"v": perm[d["v"]], "pa": [perm[p_] for p_ in d["pa"]], "rows": d["rows"]} for d in cpds]
+    if rng.random() < 0.5:
+        rng.shuffle(cpds2)
+    nodes = list(range(n))
+    if rng.random() < 0.5:
+        rng.shuffle(nodes)
+    depth = [0] * n
+    for v in range(1, n):
+        depth[v] = depth[parent[v]] + 1
+    far = sorted(range(n), key=lambda v: -depth[v])[:3]          # the nodes farthest from the skewed prior
+    vstyle = rng.choice(["int", "int", "str", "bigint"])
+    if vstyle == "int":
+        names = [["i", i] for i in range(n)]
+        if rng.random() < 0.5:
+            rng.shuffle(names)
+    elif vstyle == "str":
+        names = [["s", "N%d" % i] for i in range(n)]
+    else:
+        names = name_specs(rng, n, "bigint")
+    return {"kind": "mid", "n": n, "nodes": nodes, "edges": edges, "cards": [2] * n, "cpds": cpds2, "shape": "mid-" + shape,
+            "vstyle": vstyle, "vnames": names, "far": [perm[v] for v in far], "root": perm[0],
+            "states": [state_specs(rng, 2, rng.choice(["int", "intperm", "str", "bool"])) for _ in range(n)],
+            "qseed": rng.randint(0, 10 ** 9)}
 
 
 def gen_update(rng, nmax, space):
@@ -549,7 +666,7 @@ def gen_maxsum(rng):
     rng.shuffle(cpds2)
     nodes = list(range(n))
     rng.shuffle(nodes)
-    vstyle = rng.choice(["str", "substr", "int", "tuple", "mixed"])
+    vstyle = rng.choice(["str", "substr", "int", "bigint", "tuple", "mixed"])
     return {"kind": "bn", "n": n, "nodes": nodes, "edges": edges, "cards": cards2, "cpds": cpds2, "shape": "maxsum",
             "vstyle": vstyle, "vnames": name_specs(rng, n, vstyle),
             "states": [state_specs(rng, cards2[v], rng.choice(STATE_STYLES)) for v in range(n)],
@@ -646,20 +763,33 @@ class Net:
         return None
 
 
+def fresh(x):
+    """an equal but not identical object (strings, tuples, big ints are rebuilt at run time)"""
+    if isinstance(x, bool):
+        return x
+    if isinstance(x, str):
+        return "".join(list(x)) if len(x) > 1 else x
+    if isinstance(x, tuple):
+        return tuple(fresh(e) for e in x)
+    if isinstance(x, int):
+        return int(str(x))
+    return x
+
+
 def build_bn(net):
     from pgmpy.models import BayesianNetwork
     from pgmpy.factors.discrete import TabularCPD
     case = net.case
     bn = BayesianNetwork()
     for v in case["nodes"]:
-        bn.add_node(net.vn[v])
-    bn.add_edges_from([(net.vn[a], net.vn[b]) for a, b in case["edges"]])
+        bn.add_node(fresh(net.vn[v]))
+    bn.add_edges_from([(fresh(net.vn[a]), fresh(net.vn[b])) for a, b in case["edges"]])
     fs = []
     for d in case["cpds"]:
         v, pa = d["v"], d["pa"]
         rows = [[float(fr(x)) for x in r] for r in d["rows"]]
-        sn = {net.vn[u]: list(net.st[u]) for u in [v] + pa}
-        cpd = TabularCPD(net.vn[v], net.cards[v], rows, evidence=[net.vn[p] for p in pa] or None,
+        sn = {fresh(net.vn[u]): [fresh(x) for x in net.st[u]] for u in [v] + pa}
+        cpd = TabularCPD(fresh(net.vn[v]), net.cards[v], rows, evidence=[fresh(net.vn[p]) for p in pa] or None,
                          evidence_card=[net.cards[p] for p in pa] or None, state_names=sn)
         bn.add_cpds(cpd)
         fs.append([[v] + pa, [fr(x) for r in d["rows"] for x in r]])
@@ -673,14 +803,14 @@ def build_mn(net):
     case = net.case
     mn = MarkovNetwork()
     for v in range(net.n):
-        mn.add_node(net.vn[v])
-    mn.add_edges_from([(net.vn[a], net.vn[b]) for a, b in case["edges"]])
+        mn.add_node(fresh(net.vn[v]))
+    mn.add_edges_from([(fresh(net.vn[a]), fresh(net.vn[b])) for a, b in case["edges"]])
     fs = []
     for f in case["factors"]:
         s = f["vars"]
         vals = [fr(x) for x in f["vals"]]
-        phi = DiscreteFactor([net.vn[v] for v in s], [net.cards[v] for v in s], [float(x) for x in vals],
-                             state_names={net.vn[v]: list(net.st[v]) for v in s})
+        phi = DiscreteFactor([fresh(net.vn[v]) for v in s], [net.cards[v] for v in s], [float(x) for x in vals],
+                             state_names={fresh(net.vn[v]): [fresh(x) for x in net.st[v]] for v in s})
         mn.add_factors(phi)
         fs.append([list(s), vals])
     mn.check_model()
@@ -817,6 +947,41 @@ def connected(case):
 
 
 # ------------------------------------------------------------------ Bayesian networks
+def as_container(rng, names, tags, kinds=("list", "list", "tuple", "set", "frozenset", "keys")):
+    """the query variables as a list, tuple, set, frozenset or dict-keys view (predict itself passes a set)"""
+    k = rng.choice(list(kinds))
+    tags.append("variables-as=" + k)
+    if k == "list":
+        return list(names)
+    if k == "tuple":
+        return tuple(names)
+    if k == "set":
+        return set(names)
+    if k == "frozenset":
+        return frozenset(names)
+    return {x: None for x in names}.keys()
+
+
+def as_order_container(rng, names, tags, homog):
+    """an explicit elimination order as a list, a tuple, a numpy object array or a pandas Index ('list (array-like)')"""
+    import numpy as np
+    import pandas as pd
+    k = rng.choice(["list", "tuple", "ndarray", "index"])
+    if k in ("ndarray", "index") and not (homog and len(names) >= 1):
+        k = "tuple"                      # array-likes only make sense for names of one plain type (all str / all int)
+    tags.append("order-as=" + k)
+    if k == "list":
+        return list(names)
+    if k == "tuple":
+        return tuple(names)
+    if k == "ndarray":
+        a = np.empty(len(names), dtype=object)
+        for i, x in enumerate(names):
+            a[i] = x
+        return a
+    return pd.Index(list(names), dtype=object)
+
+
 def purity_snapshot(variables, evidence, virt, order):
     """deep, order-sensitive picture of the caller's arguments"""
     def tab(c):
@@ -828,7 +993,7 @@ def purity_snapshot(variables, evidence, virt, order):
     return repr((list(variables) if variables is not None else None,
                  list(evidence.items()) if evidence is not None else None,
                  [tab(c) for c in virt] if virt is not None else None,
-                 list(order) if isinstance(order, list) else order))
+                 order if (order is None or isinstance(order, str)) else list(order)))
 
 
 def run_bn(case, drv):
@@ -896,7 +1061,10 @@ def run_bn(case, drv):
             for eo in opts:
                 eo_arg = [net.vn[v] for v in perm] if eo == "explicit" else eo
                 ve = VariableElimination(bn)
-                a_vars, a_ev, a_virt = list(Qn), evarg(), vev()
+                a_vars, a_ev, a_virt = as_container(rng, Qn, tags), evarg(), vev()
+                if eo == "explicit":
+                    eo_arg = as_order_container(rng, eo_arg, tags,
+                                                all(type(x) is str for x in net.vn) or all(type(x) is int for x in net.vn))
                 snap = purity_snapshot(a_vars, a_ev, a_virt, eo_arg)
                 res = ve.map_query(variables=a_vars, evidence=a_ev, virtual_evidence=a_virt,
                                    elimination_order=eo_arg, show_progress=rng.random() < 0.1)
@@ -924,7 +1092,8 @@ def run_bn(case, drv):
             # --- belief propagation
             if conn and rng.random() < 0.5:
                 bp = BeliefPropagation(bn)
-                a_vars, a_ev, a_virt = list(Qn), evarg(), vev()
+                # (BeliefPropagation._query recognises list / tuple / set only; anything else is taken for ONE variable)
+                a_vars, a_ev, a_virt = as_container(rng, Qn, tags, ("list", "tuple", "set")), evarg(), vev()
                 snap = purity_snapshot(a_vars, a_ev, a_virt, None)
                 res = bp.map_query(variables=a_vars, evidence=a_ev, virtual_evidence=a_virt,
                                    show_progress=rng.random() < 0.1)
@@ -1641,16 +1810,16 @@ def build_fg(net):
     from pgmpy.factors.discrete import DiscreteFactor
     case = net.case
     fg = FactorGraph()
-    fg.add_nodes_from([net.vn[v] for v in range(net.n)])
+    fg.add_nodes_from([fresh(net.vn[v]) for v in range(net.n)])
     fs = []
     for f in case["factors"]:
         sc = f["vars"]
         vals = [fr(x) for x in f["vals"]]
-        phi = DiscreteFactor([net.vn[v] for v in sc], [net.cards[v] for v in sc], [float(x) for x in vals],
-                             state_names={net.vn[v]: list(net.st[v]) for v in sc})
+        phi = DiscreteFactor([fresh(net.vn[v]) for v in sc], [net.cards[v] for v in sc], [float(x) for x in vals],
+                             state_names={fresh(net.vn[v]): [fresh(x) for x in net.st[v]] for v in sc})
         fg.add_factors(phi)
         fg.add_node(phi)
-        fg.add_edges_from([(net.vn[v], phi) for v in sc])
+        fg.add_edges_from([(fresh(net.vn[v]), phi) for v in sc])
         fs.append([list(sc), vals])
     fg.check_model()
     return fg, fs
@@ -1789,6 +1958,63 @@ def not_float32_exact(case):
     return False
 
 
+def run_mid(case, drv):
+    """mid-sized trees (>= 8 cliques): BeliefPropagation.map_query (fresh engine, and after a public calibrate()) must
+    attain the exact posterior's maximum for query nodes far from the skewed prior; VariableElimination for comparison"""
+    from pgmpy.inference import VariableElimination, BeliefPropagation
+    net = Net(case)
+    bn, fs = build_bn(net)
+    rng = random.Random(case["qseed"] + 9)
+    n = net.n
+    tags = ["mid n=%d %s" % (n, case["shape"])]
+    ncl = len(BeliefPropagation(bn).junction_tree.nodes())
+    tags.append("mid cliques=%d" % ncl)
+    for qi in range(3 if n <= 12 else 2):
+        full = pos_state(rng, net, fs)
+        if qi == 0:
+            Q, E = [case["far"][0]], []
+        elif qi == 1:
+            Q = rng.sample(case["far"], 2)
+            E = []
+        else:
+            Q = [rng.choice(case["far"])]
+            E = [rng.choice([v for v in range(n) if v not in Q and v != case["root"]])]
+        ev = {v: full[v] for v in E}
+        J = Judge(drv, net, fs, Q, ev, True)
+        evn = {net.vn[v]: net.st[v][s_] for v, s_ in ev.items()}
+        Qn = [net.vn[v] for v in Q]
+        calls = [("BP fresh", lambda: BeliefPropagation(bn).map_query(variables=list(Qn), evidence=dict(evn) or None,
+                                                                      show_progress=False), False),
+                 ("VE", lambda: VariableElimination(bn).map_query(variables=list(Qn), evidence=dict(evn) or None,
+                                                                  elimination_order=rng.choice(HEURISTICS + [None]),
+                                                                  show_progress=False), True)]
+        if qi == 0:
+            def after_cal():
+                bp = BeliefPropagation(bn)
+                bp.calibrate()
+                return bp.map_query(variables=list(Qn), evidence=dict(evn) or None, show_progress=False)
+            calls.append(("BP after calibrate()", after_cal, False))
+        for nm, call, strict in calls:
+            res = call()
+            b = J.judge(res, "mid-sized %s (%d cliques): %s" % (case["shape"], ncl, nm), strict_ties=strict)
+            tags.append("mid " + nm.split(" ")[0])
+            if b and b != "near":
+                b["kind"] = b["kind"] + ":mid-sized"
+                return b
+    # every single node once more through a fresh BP engine: somewhere the far prior has to arrive
+    others = [v for v in range(n) if v != case["far"][0]]
+    for v in rng.sample(others, min(len(others), 5 if n <= 11 else 3)):
+        J = Judge(drv, net, fs, [v], {}, True)
+        res = BeliefPropagation(bn).map_query(variables=[net.vn[v]], show_progress=False)
+        b = J.judge(res, "mid-sized %s (%d cliques): BP fresh, single node" % (case["shape"], ncl), strict_ties=False)
+        tags.append("mid BP")
+        if b and b != "near":
+            b["kind"] = b["kind"] + ":mid-sized"
+            return b
+    return ok(nontrivial=True, key=common.canon_key(["mid", case["edges"], case["cpds"], case["vnames"], case["states"],
+                                                     case["qseed"]]), tags=tags)
+
+
 def run_wide(case, drv):
     from pgmpy.inference import VariableElimination, BeliefPropagation
     net = Net(case)
@@ -1849,6 +2075,8 @@ def run_case(case, drv):
             config.set_backend("numpy")
     if case["kind"] == "wide":
         return run_wide(case, drv)
+    if case["kind"] == "mid":
+        return run_mid(case, drv)
     if case["kind"] == "bn":
         return run_bn(case, drv)
     if case["kind"] == "all":
